@@ -25,7 +25,8 @@ def pack_opts(draw, mode="dir", comps=("gzip", "xz", "lz4", "zstd", "lzma"), sma
     o["e"] = draw(st.booleans())
     o["j"] = draw(st.sampled_from([None, 1, 1, 2, 3, 4, 8]))
     o["Q"] = draw(st.sampled_from([None, None, 1, 2, 5, 100]))
-    o["devblk"] = draw(st.sampled_from([None, None, None, 1024, 2048, 8192, "4K"]))
+    # any value >= 1024 is accepted, not only powers of two
+    o["devblk"] = draw(st.sampled_from([None, None, None, 1024, 2048, 8192, "4K", 1536, 3000, 12345, 100000]))
     d = {}
     if draw(st.integers(0, 2)) == 0:
         # --defaults uid=/gid= accept values up to INT32_MAX only (larger ones are refused with a diagnostic)
@@ -53,6 +54,7 @@ def pack_opts(draw, mode="dir", comps=("gzip", "xz", "lz4", "zstd", "lzma"), sma
         o["keep_xattr"] = draw(st.booleans())
     if mode == "file":
         o["quote_all"] = draw(st.booleans())
+        o["late_dirs"] = draw(st.sampled_from([False, False, True]))
         o["loc_style"] = draw(st.integers(0, 1))
         o["packdir_mode"] = draw(st.integers(0, 2))
     o["xattr_styles"] = draw(st.lists(st.integers(0, 2), min_size=1, max_size=3))
@@ -133,7 +135,7 @@ def run_pack(case, scratch, variant="asan", extra_args=(), env=None, preload=Non
         ind = os.path.join(scratch, "input")
         os.mkdir(ind)
         pm = o.get("packdir_mode", 0)
-        text = treemodel.packfile_lines(nodes, B, ind, quote_all=o.get("quote_all", False), loc_style=o.get("loc_style", 0))
+        text = treemodel.packfile_lines(nodes, B, ind, quote_all=o.get("quote_all", False), loc_style=o.get("loc_style", 0), late_dirs=o.get("late_dirs", False))
         if pm == 0:      # files relative to the directory of the pack file
             lf = os.path.join(ind, "list.txt")
             args += ["-F", lf]
@@ -187,7 +189,7 @@ def glob_match(pat, name, pathname):
     while b"**" in pat:
         pat = pat.replace(b"**", b"*")
     if pat.count(b"*") > 6:
-        raise treemodel.Unrepresentable("pattern with too many wildcards for the reference matcher")
+        raise Inconclusive("pattern with too many wildcards for the reference matcher")
     rx = b""
     for i in range(len(pat)):
         c = pat[i:i + 1]
